@@ -1,10 +1,10 @@
 package main
 
 import (
-	"go/constant"
-	"sort"
 	"fmt"
+	"go/constant"
 	"go/types"
+	"sort"
 	"strings"
 
 	"golang.org/x/tools/go/ssa"
@@ -725,6 +725,7 @@ func (cx *callCtx) setToSlice(mt *types.Map, m Term) Term {
 	ks := vc.sortOf(mt.Key())
 	d := vc.name("dom", fmt.Sprintf("(Array %s Bool)", ks), cx.dom(mt, m))
 	n := e.card(ks, d)
+	allocBefore := cx.st.alloc
 	loc := e.newObj(cx.st)
 	res := vc.name("list", "Slice", fmt.Sprintf("(mkslice %s 0 %s %s)", loc, n, n))
 	c := e.boxComp(mt.Key())
@@ -733,9 +734,17 @@ func (cx *callCtx) setToSlice(mt *types.Map, m Term) Term {
 	inv := sym(fmt.Sprintf("listpos!%d", e.qctr()))
 	vc.decls = append(vc.decls, fmt.Sprintf("(declare-fun %s (%s) Int)", inv, ks))
 	vc.assumeIf(cx.st.pc, fmt.Sprintf("(forall ((l Loc)) (! (=> (not (= (rootid l) (rootid %s))) (= (select %s l) (select %s l))) :pattern ((select %s l))))", loc, nw, old, nw))
-	vc.assumeIf(cx.st.pc, fmt.Sprintf("(forall ((j Int)) (! (=> (and (<= 0 j) (< j %s)) (and (select %s (select %s (idx %s j))) (= (%s (select %s (idx %s j))) j))) :pattern ((select %s (idx %s j)))))", n, d, nw, loc, inv, nw, loc, nw, loc))
-	vc.assumeIf(cx.st.pc, fmt.Sprintf("(forall ((k %s)) (! (=> (select %s k) (and (<= 0 (%s k)) (< (%s k) %s) (= (select %s (idx %s (%s k))) k))) :pattern ((select %s k))))", ks, d, inv, inv, n, nw, loc, inv, d))
+	if top := e.topFrame; top != nil && top.con != nil && top.con.Options["listsidx"] {
+		// the elements stated at (sidx list j), the term a specification's list[j] produces
+		vc.assumeIf(cx.st.pc, fmt.Sprintf("(forall ((j Int)) (! (=> (and (<= 0 j) (< j %s)) (and (select %s (select %s (sidx %s j))) (= (%s (select %s (sidx %s j))) j))) :pattern ((sidx %s j))))", n, d, nw, res, inv, nw, res, res))
+		vc.assumeIf(cx.st.pc, fmt.Sprintf("(forall ((k %s)) (! (=> (select %s k) (and (<= 0 (%s k)) (< (%s k) %s) (= (select %s (sidx %s (%s k))) k))) :pattern ((select %s k)) :pattern ((%s k))))", ks, d, inv, inv, n, nw, res, inv, d, inv))
+	} else {
+		vc.assumeIf(cx.st.pc, fmt.Sprintf("(forall ((j Int)) (! (=> (and (<= 0 j) (< j %s)) (and (select %s (select %s (idx %s j))) (= (%s (select %s (idx %s j))) j))) :pattern ((select %s (idx %s j)))))", n, d, nw, loc, inv, nw, loc, nw, loc))
+		vc.assumeIf(cx.st.pc, fmt.Sprintf("(forall ((k %s)) (! (=> (select %s k) (and (<= 0 (%s k)) (< (%s k) %s) (= (select %s (idx %s (%s k))) k))) :pattern ((select %s k))))", ks, d, inv, inv, n, nw, loc, inv, d))
+	}
+	snap := cx.st.clone()
 	cx.st.heap[c] = nw
+	e.noteAllocOnly(cx.st, snap, c, old, nw, allocBefore)
 	return res
 }
 
